@@ -49,6 +49,9 @@ Fill(type, class) ==
     [] type = "repl" /\ class = "badesc" -> {"'\\g<'", "'\\g'"}
     [] type = "range" /\ class = "ok"    -> {"1", "1:2", ":-1", "2:", "-2:-1"}
     [] type = "range" /\ class = "bad"   -> {"a", "1:b", "::", "1.5", "1//0:", "{", "1:{}", "%d"}
+    \* GLOB-PATTERN: degenerate patterns (empty, without components, unbalanced) are patterns all the same
+    [] type = "glob" /\ class = "ok"     -> {"'*.txt'", "f.txt", "'[a-f]*'", "'?.txt'"}
+    [] type = "glob" /\ class = "degenerate" -> {"''", "'.'", "'['", "'**'", "'/'", "'*/'"}
     [] type = "matcher" /\ class = "ok"  -> {"is-empty", "( ! is-empty )", "TM"}
     [] type = "matcher" /\ class = "wrongtype" -> {"STR", "LST", "PTH", "TT"}   \* symbols of another type
     [] type = "transformer" /\ class = "ok" -> {"identity", "TT", "strip"}
@@ -59,6 +62,7 @@ ClassesOf(type) ==
     [] type = "regex" -> {"ok", "bad", "extreme"}
     [] type = "repl" -> {"ok", "badref", "badesc"}
     [] type = "range" -> {"ok", "bad"}
+    [] type = "glob" -> {"ok", "degenerate"}
     [] type = "matcher" -> {"ok", "wrongtype"}
     [] type = "transformer" -> {"ok", "wrongtype"}
 
@@ -85,6 +89,9 @@ Skeletons == {
   [id |-> "unknown-phase", phase |-> "setup", a |-> <<"[no-such-phase]">>, s1 |-> "-", b |-> <<>>, s2 |-> "-", c |-> <<>>],
   [id |-> "unterminated-quote", phase |-> "setup", a |-> <<"def", "string", "Q", "=", "'abc">>, s1 |-> "-", b |-> <<>>, s2 |-> "-", c |-> <<>>],
   [id |-> "missing-argument", phase |-> "assert", a |-> <<"exit-code", "==">>, s1 |-> "-", b |-> <<>>, s2 |-> "-", c |-> <<>>],
+  [id |-> "path-glob", phase |-> "assert", a |-> <<"exists", "f.txt", ":", "path">>, s1 |-> "glob", b |-> <<>>, s2 |-> "-", c |-> <<>>],
+  [id |-> "name-glob", phase |-> "assert", a |-> <<"exists", "f.txt", ":", "name">>, s1 |-> "glob", b |-> <<>>, s2 |-> "-", c |-> <<>>],
+  [id |-> "selection-path-glob", phase |-> "assert", a |-> <<"dir-contents", ".", ":", "-selection", "path">>, s1 |-> "glob", b |-> <<"num-files", ">=", "0">>, s2 |-> "-", c |-> <<>>],
   \* paths with relativity options and program arguments that name files
   [id |-> "file-rel", phase |-> "setup", a |-> <<"file", "-rel-act", "n.txt", "=", "x">>, s1 |-> "-", b |-> <<>>, s2 |-> "-", c |-> <<>>],
   [id |-> "copy-rel", phase |-> "setup", a |-> <<"copy", "-rel-act", "f.txt", "-rel-tmp", "g.txt">>, s1 |-> "-", b |-> <<>>, s2 |-> "-", c |-> <<>>],
@@ -102,7 +109,9 @@ SyntaxSkeletons == {"unknown-instruction", "unknown-phase", "unterminated-quote"
 \* tokens mutations may put in place of another
 Extreme == {"0", "-1", "1//0", "1.5", "'a'", "()", "2**70", "None", "(", ")", "[", "*", "\\", "'\\6'", "'(?P<a'",
             "'[a-'", "+", "@[UNDEF]@", "@[EXACTLY_ACT]@", "\"", "'", "<<EOF", ":>", "-rel-tmp", "-rel", "!", "&&",
-            "||", "=", ":", "{", "}", "-full", "\\u00e9", "[setup]", "[assert]", "including", "`"}
+            "||", "=", ":", "{", "}", "-full", "\\u00e9", "[setup]", "[assert]", "including", "`",
+            "\\f", "\\v", "\\u00a0", "\\u2028", "LONG"}        \* white space of other kinds; a name of 300 characters
+WhiteSpaces == {"\\f", "\\u00a0"}
 
 VARIABLES setupL, assertL,   \* generated instruction lines (token sequences) of [setup] and [assert]
           actL,              \* the line of [act]
@@ -120,12 +129,12 @@ Init == /\ setupL = <<>> /\ assertL = <<>> /\ defects = {} /\ extremes = {} /\ i
 Line(sk, v1, v2) == sk.a \o (IF sk.s1 = "-" THEN <<>> ELSE <<v1>>) \o sk.b \o (IF sk.s2 = "-" THEN <<>> ELSE <<v2>>)
                     \o sk.c \o <<"NL">>
 \* "huge" and "hang" integers are well-formed integer expressions: not defects, but extreme values
-Benign == {"ok", "huge", "hang"}
+Benign == {"ok", "huge", "hang", "degenerate"}
 DefectOf(sk, c1, c2) == (IF sk.id \in SyntaxSkeletons THEN {<<"syntax", sk.id>>} ELSE {})
                         \cup (IF sk.s1 # "-" /\ c1 \notin Benign THEN {<<sk.s1, c1>>} ELSE {})
                         \cup (IF sk.s2 # "-" /\ c2 \notin Benign THEN {<<sk.s2, c2>>} ELSE {})
-ExtremeOf(sk, c1, c2) == (IF sk.s1 # "-" /\ c1 \in {"huge", "hang"} THEN {c1} ELSE {})
-                         \cup (IF sk.s2 # "-" /\ c2 \in {"huge", "hang"} THEN {c2} ELSE {})
+ExtremeOf(sk, c1, c2) == (IF sk.s1 # "-" /\ c1 \in {"huge", "hang", "degenerate"} THEN {c1} ELSE {})
+                         \cup (IF sk.s2 # "-" /\ c2 \in {"huge", "hang", "degenerate"} THEN {c2} ELSE {})
 
 Produce(sk, c1, v1, c2, v2) ==
   /\ stage = "produce" /\ instr < MaxInstr
@@ -183,6 +192,13 @@ Next == \/ /\ stage = "produce" /\ instr < MaxInstr
         \/ /\ CanMutate /\ QuoteFamily          \* only tokens of the generated instruction and of [act]
            /\ \E i \in (Len(Frame) + 1)..Len(toks) : \E q \in {"'", "\""} :
                  toks[i] \notin {"[act]", "[assert]"} /\ Unquote(i, q)
+        \* ... and the case cut short at every such token, which becomes white space of another kind, without a
+        \* final new-line ("NOEOL")
+        \/ /\ CanMutate /\ QuoteFamily
+           /\ \E i \in (Len(Frame) + 1)..Len(toks) : \E ws \in WhiteSpaces :
+                 /\ toks[i] # "NL"
+                 /\ toks' = SubSeq(toks, 1, i - 1) \o <<ws, "NOEOL">> /\ muts' = muts + 1
+                 /\ UNCHANGED <<setupL, assertL, actL, defects, extremes, instr, stage>>
 Spec == Init /\ [][Next]_vars
 
 \* ---- classification ------------------------------------------------------------------------
